@@ -61,6 +61,7 @@ def Stream.read (s : Stream) (now n : Nat) : Option Stream :=
 
 inductive Step where
   | open_ (timeout now : Nat)        -- Store.Open (success path keeps the read lock in a stream)
+  | openFail                         -- Store.Open failing after BeginRead (unknown id, ...): deferred EndRead
   | close (i : Nat)                  -- LockingStreamer.Close (may be repeated)
   | checkIdle (i now : Nat)          -- timer callback
   | read (i now n : Nat)
@@ -84,6 +85,12 @@ def step (s : Sys) : Step → Sys
   | .open_ timeout now =>
     match s.m.beginRead with
     | (m', .ok) => { s with m := m', streams := s.streams ++ [newStream timeout now] }
+    | (_, _) => s
+  | .openFail =>
+    match s.m.beginRead with
+    | (m', .ok) =>
+      let (m'', r) := m'.endRead
+      note { s with m := m'' } r
     | (_, _) => s
   | .close i =>
     match s.streams[i]? with
@@ -130,7 +137,7 @@ def openCount (l : List Stream) : Nat := (l.filter (fun st => !st.closed)).lengt
 
 /-! ### line protocol (component `streamer`)
 `reset` → `ok`
-`open <timeout> <now>` → `ok <id>` | `conflict`
+`open <timeout> <now>` → `ok <id>` | `conflict` ;  `openfail` → `error` | `conflict`
 `close <i>` → `released` | `noop` ;  `idle <i> <now>` → `forced` | `rearmed` | `noop`
 `read <i> <now> <n>` → `ok` | `timeout-error`
 `aux+` → `ok|conflict` ; `aux-` → `ok|noop`
@@ -152,6 +159,8 @@ def step' (d : DState) (line : String) : DState × String :=
         ({ s := step d.s (.open_ t n) }, s!"ok {d.s.streams.length}")
       else (d, "conflict")
     | _, _ => (d, "bad-op")
+  | ["openfail"] =>
+    if (d.s.m.beginRead).2 = .ok then ({ s := step d.s .openFail }, "error") else (d, "conflict")
   | ["close", i] =>
     match i.toNat? with
     | some i =>
